@@ -160,3 +160,17 @@ M("C06", "client-sha1", "client.py", "        digest = hashlib.sha256(self.aes_r
 M("C06", "unpack-swapped", "c2.py", "            self.aes_key, self.hmac_key = derive_aes_hmac_keys(aes_rand)", "            self.hmac_key, self.aes_key = derive_aes_hmac_keys(aes_rand)", "C06.R5")
 T("C06", "twin-client-uses-helper", "client.py", "        digest = hashlib.sha256(self.aes_rand).digest()\n        self.aes_key = digest[:16]\n        self.hmac_key = digest[16:]",
   "        d2 = hashlib.sha256(self.aes_rand).digest()\n        self.aes_key = d2[:16]\n        self.hmac_key = d2[16:]")
+
+# =============================================================================== C07
+M("C07", "route-by-substring", "c2.py", "            if http.method == self.get_verb and http.uri.startswith(self.get_uris):", "            if http.method == self.get_verb and any(u in http.uri for u in self.get_uris):", "C07.R1")
+M("C07", "route-without-verb", "c2.py", "            elif http.method == self.submit_verb and http.uri.startswith(self.submit_uri):", "            elif http.uri.startswith(self.submit_uri):", "C07.R1")
+M("C07", "fallthrough-none", "c2.py", "        raise ValueError(f\"Possible unrelated HTTP Request or Response, cannot find correct transform for {http!r}\")", "        logger.debug(f\"Possible unrelated HTTP Request or Response, cannot find correct transform for {http!r}\")", "C07.R1")
+M("C07", "swap-get-post-settings", "c2.py", "        self.transform_submit = HttpDataTransform(steps=bconfig.settings[\"SETTING_C2_POSTREQ\"])\n        self.transform_get = HttpDataTransform(steps=bconfig.settings[\"SETTING_C2_REQUEST\"])",
+  "        self.transform_submit = HttpDataTransform(steps=bconfig.settings[\"SETTING_C2_REQUEST\"])\n        self.transform_get = HttpDataTransform(steps=bconfig.settings[\"SETTING_C2_POSTREQ\"])", "C07.R2")
+M("C07", "response-not-reversed", "c2.py", "            steps=bconfig.settings[\"SETTING_C2_RECOVER\"], reverse=True, build=\"output\"", "            steps=bconfig.settings[\"SETTING_C2_RECOVER\"], build=\"output\"", "C07.R2")
+M("C07", "both-keys-accepted", "c2.py", "        if aes_rand and aes_key:\n            raise ValueError(\"Cannot specify both aes_rand and aes_key.\")\n", "", "C07.R3")
+M("C07", "hmac-len-unchecked", "c2.py", "        if self.hmac_key is not None and len(self.hmac_key) != 16:\n            raise ValueError(f\"HMAC key must be 16 bytes, got: {self.hmac_key!r}\")\n", "", "C07.R3")
+M("C07", "client-posts-with-get-transform", "client.py", "        req = self.c2http.transform_submit.transform(", "        req = self.c2http.transform_get.transform(", "C07.R4")
+M("C07", "client-id-hex", "client.py", "                id=str(self.beacon_id).encode(),", "                id=hex(self.beacon_id).encode(),", "C07.R4")
+M("C07", "task-as-callback", "c2.py", "            if isinstance(c2data, ClientC2Data):\n                yield CallbackPacket(plaintext)\n            elif isinstance(c2data, ServerC2Data):\n                yield TaskPacket(plaintext)", "            if isinstance(c2data, ServerC2Data):\n                yield CallbackPacket(plaintext)\n            elif isinstance(c2data, ClientC2Data):\n                yield TaskPacket(plaintext)", "C07.R4")
+T("C07", "twin-nested-ifs", "c2.py", "            if http.method == self.get_verb and http.uri.startswith(self.get_uris):\n                return self.transform_get", "            if http.method == self.get_verb:\n                if http.uri.startswith(self.get_uris):\n                    return self.transform_get\n            if False:\n                pass")
